@@ -2,13 +2,15 @@ import RawPanelVerif.Lemmas.SvgLemmas
 import RawPanelVerif.Lemmas.SvgPrint
 import RawPanelVerif.Lemmas.SvgShape
 import RawPanelVerif.Lemmas.SvgXmldomWf
+import RawPanelVerif.Lemmas.SvgXmldomMod
 import RawPanelVerif.Model.SvgObs
 /-!
 # C15 — Composite panel SVG contains exactly the visible components, correctly placed
 
 Property theorems only.  The statement is `Spec.Svg.checkSVG` (Spec/SvgSpec.lean, Spec/SvgBaseSpec.lean), the predicate
 the check also evaluates on the element list the real `GenerateCompositeSVGdoc` appended to the base document, on the
-text the real printer wrote for each element, and on four flags the harness observes on the real printed documents.
+text the real printer wrote for each element, and on five flags the harness observes on the real printed documents
+(plus two per call: argument unchanged, call repeatable — `Spec.Svg.callOk`).
 Everything is for **all** topologies (as in C13), all availability maps (nil, empty, any entries), all four render
 switches, every rotation-format table, every token stream of the base document and **all byte strings** as labels,
 styles and other texts.
@@ -44,6 +46,13 @@ attribute, printed byte by printed byte, and flag by flag)
   * `mixed_text_lost`            the same for mixed text when nothing is appended; `mixed_text_kept_by_coincidence`:
                                  with an appended element the containment test can hold although text moved (a
                                  concrete witness; the exact guard is "nothing appended").
+  * `kept_modulo_features`       **for EVERY document, whatever is appended**: after deleting from the base and from the
+                                 printed document what the four features cover (`Spec.SvgBase.normal`: comments, prefixes,
+                                 the processing instructions when one is not the first token, character data that is not
+                                 last in its element) the rest of the base is, in order, within the rest of the printed
+                                 document (`Spec.SvgBase.keepsContentMod`, the flag `keptMod`).  So a `keptMod = 0` on
+                                 the implementation is a loss NO known finding explains: the Spec names it plain
+                                 `base-content`, and checks it before the clauses that carry a feature name.
   * `wellformed_iff_no_attr_collision`, `attr_collision_needs_prefix`  the printed document has an attribute twice in a
                                  tag exactly when a tag of the base has two attributes with one local name, which
                                  needs prefixes (`href`, `xlink:href`).
@@ -54,10 +63,14 @@ attribute, printed byte by printed byte, and flag by flag)
                                  predicts (`Xmldom.modelObserved`, Model/SvgObs.lean): `not-wellformed:duplicate-attribute`
                                  / holds / `base-content:<feature>` — never the plain `base-content` / `wellformed`
                                  (those always mean code ≠ model), and "holds" for a document without the five features.
+  * `extra_loss_not_hidden_by_known_finding`  whatever the features of the base and whatever the other flags say:
+                                 `keptMod = 0` (with the tail printed) gives the plain `base-content`.
+  * `model_call_ok`              the model is a function of its arguments: `argument-modified` / `not-repeatable` never
+                                 hold of it (on the implementation both are observed per call, map compared with a deep copy).
 
 Not proved: that the bytes `go-xmldom` prints re-tokenize to the modelled token stream (escaping / unescaping,
 `<?target inst?>`, `<!directive>`); the flags `kept` (tree against tree) and `tail` are observed only.  The check
-compares the model's `kept2` / `wellformed` with the ones `encoding/xml` gives on the real documents on every record.
+compares the model's `kept2` / `keptMod` / `wellformed` with the ones `encoding/xml` gives on the real documents on every record.
 
 Known findings (known_findings.json, `C15.*`, status known): on the unchanged library the property is false for valid
 bases with one of the five features and for the three rejected kinds; clause names as above.
@@ -220,9 +233,23 @@ theorem svg_verdict_is_observation (rot : Str → RotInfo) (kinds : Str) (endOk 
     rw [ha]
 
 theorem observedOk_none_iff (f : Spec.SvgBase.Features) (ob : Spec.Svg.Observed) :
-    Spec.Svg.observedOk f ob = none ↔ (ob.tail = true ∧ ob.wellformed = true ∧ ob.kept = true ∧ ob.kept2 = true) := by
-  obtain ⟨k, k2, w, tl⟩ := ob
-  cases k <;> cases k2 <;> cases w <;> cases tl <;> simp [Spec.Svg.observedOk]
+    Spec.Svg.observedOk f ob = none ↔
+      (ob.tail = true ∧ ob.wellformed = true ∧ ob.kept = true ∧ ob.kept2 = true ∧ ob.keptMod = true) := by
+  obtain ⟨k, k2, km, w, tl⟩ := ob
+  cases k <;> cases k2 <;> cases km <;> cases w <;> cases tl <;> simp [Spec.Svg.observedOk]
+
+/-- **A loss the known findings do not explain is never hidden by one.**  Whatever features the base has and whatever
+the flags `wellformed` / `kept2` say (they carry the feature names under which failures are known findings): when the
+content modulo the features is not kept, the verdict on the flags is the plain `base-content`. -/
+theorem extra_loss_not_hidden_by_known_finding (f : Spec.SvgBase.Features) (ob : Spec.Svg.Observed)
+    (ht : ob.tail = true) (hm : ob.keptMod = false) : Spec.Svg.observedOk f ob = some "base-content" := by
+  obtain ⟨k, k2, km, w, tl⟩ := ob
+  simp only at ht hm
+  subst ht hm
+  cases k <;> simp [Spec.Svg.observedOk]
+
+/-- the model is a function of its arguments and has no state: the per-call clauses hold of it -/
+theorem model_call_ok : Spec.Svg.callOk Xmldom.modelCall = none := rfl
 
 /-- with the observed flags good, the model's output satisfies every clause of the Spec (for a base that is not one of
 the rejected valid documents) -/
@@ -564,6 +591,15 @@ theorem pi_lost (nodes : List SvgNode) (ts : List Tok) (h : Spec.SvgBase.piMoved
   Xmldom.pi_not_kept _ ts (Xmldom.appToks_plain nodes) h
 
 open RawPanelVerif.Xml in
+/-- **Content kept modulo the named features** — for every document and whatever elements are appended: what remains of
+the base after deleting what the four features cover is, in order, within what remains of the modelled printed document.
+The harness computes the same flag with `encoding/xml` on the real documents; a `0` there is a loss no known finding
+explains. -/
+theorem kept_modulo_features (nodes : List SvgNode) (ts : List Tok) (hd : Spec.SvgBase.docShape [] false ts = true) :
+    (Xmldom.modelObserved nodes ts).keptMod = true :=
+  Xmldom.keptMod_of_doc _ ts (Xmldom.appToks_plain nodes) (Xmldom.appToks_textsClosed nodes) hd
+
+open RawPanelVerif.Xml in
 /-- character data that is not the last thing in its element: lost or moved behind the children — when nothing is
 appended.  With appended elements the statement is false in general, see `mixed_text_kept_by_coincidence`. -/
 theorem mixed_text_lost (ts : List Tok) (hd : Spec.SvgBase.docShape [] false ts = true) (h : Spec.SvgBase.mixedText ts = true) :
@@ -656,7 +692,7 @@ theorem svg_model_verdict (rot : Str → RotInfo) (kinds : Str) (endOk : Bool) (
   rw [hw]
   have hk : (Xmldom.modelObserved nodes ts).kept = true := rfl
   have ht : (Xmldom.modelObserved nodes ts).tail = true := rfl
-  rw [hk, ht]
+  rw [hk, ht, kept_modulo_features nodes ts hd]
   cases hc : Spec.SvgBase.attrCollision ts with
   | true => simp [Spec.SvgBase.wellformedClause, Spec.SvgBase.features, hc]
   | false => cases (Xmldom.modelObserved nodes ts).kept2 <;> simp
@@ -733,7 +769,7 @@ def exT : Topology :=
            (2, { w := 80, rotate := [57, 48] }), (3, { w := 10, h := 30, rotate := [45, 48] })],
     hwc := [{ id := 1, x := 500, y := 300, txt := b "A|B", type := 1 }, { id := 2, x := 900, y := 300, txt := b "Knob", type := 2 },
             { id := 3, x := 0, y := 0, type := 1 }, { id := 4, x := 7, y := 8, txt := b "<&>", type := 3 }] }
-def obOk : Spec.Svg.Observed := { kept := true, kept2 := true, wellformed := true, tail := true }
+def obOk : Spec.Svg.Observed := { kept := true, kept2 := true, keptMod := true, wellformed := true, tail := true }
 /-- token kinds of `<?xml …?>\n<svg></svg>`: P W S E -/
 def exKinds : Str := b "PWSE"
 def exToks : List Xml.Tok := [.pi (b "xml") (b "version=\"1.0\""), .text [], .start [] (b "svg") [], .stop [] (b "svg")]
@@ -875,6 +911,35 @@ example : contentClause (features exComment) = "base-content:comment" ∧ conten
     contentClause (features exClean) = "base-content" ∧ wellformedClause (features exPrefix) = "not-wellformed:duplicate-attribute" ∧
     wellformedClause (features exClean) = "wellformed" ∧ (features exPrefix).names = ["ns-prefix", "dup-attr"] := by decide
 
+/-- content modulo the features: the normal forms of the lossy examples, and the flag on the modelled round trip -/
+example : normal false exComment = [.start [] (b "svg") [], .stop [] (b "svg")] ∧
+    normal false exMixed = [.start [] (b "svg") [], .start [] (b "text") [], .start [] (b "tspan") [], .text (b "b"),
+      .stop [] (b "tspan"), .text (b "c"), .stop [] (b "text"), .stop [] (b "svg")] ∧
+    normal false exPrefix = [.start [] (b "svg") [], .start [] (b "image") [([], b "href", b "a"), ([], b "href", b "a")],
+      .stop [] (b "image"), .stop [] (b "svg")] ∧
+    normal (piMoved exPI) exPI = [.start [] (b "svg") [], .stop [] (b "svg")] ∧ normal (piMoved exClean) exClean = exClean := by decide
+example : (modelObserved [] exComment).keptMod = true ∧ (modelObserved [] exMixed).keptMod = true ∧
+    (modelObserved [] exPrefix).keptMod = true ∧ (modelObserved [] exPI).keptMod = true ∧
+    (modelObserved [{ name := b "text", text := b "A" }] exClean).keptMod = true := by decide
+/-- … and it is NOT vacuous: on a base with a comment (so `kept2` is 0 anyway) a printed document that additionally lost
+an attribute, an element, a directive or the last text fails it, as does one in which the kept text moved in front of a child -/
+def exCommentAttr : List Tok :=
+  [.dir (b "DOCTYPE svg"), .start [] (b "svg") [], .comment (b " c "), .start [] (b "g") [([], b "id", b "a")], .stop [] (b "g"),
+   .text (b "t"), .stop [] (b "svg")]
+example : keepsContentMod exCommentAttr (printedToks [] exCommentAttr) = true ∧ keepsContent exCommentAttr (printedToks [] exCommentAttr) = false ∧
+    keepsContentMod exCommentAttr [.dir (b "DOCTYPE svg"), .start [] (b "svg") [], .start [] (b "g") [], .stop [] (b "g"), .text (b "t"), .stop [] (b "svg")] = false ∧
+    keepsContentMod exCommentAttr [.dir (b "DOCTYPE svg"), .start [] (b "svg") [], .text (b "t"), .stop [] (b "svg")] = false ∧
+    keepsContentMod exCommentAttr [.start [] (b "svg") [], .start [] (b "g") [([], b "id", b "a")], .stop [] (b "g"), .text (b "t"), .stop [] (b "svg")] = false ∧
+    keepsContentMod exCommentAttr [.dir (b "DOCTYPE svg"), .start [] (b "svg") [], .start [] (b "g") [([], b "id", b "a")], .stop [] (b "g"), .stop [] (b "svg")] = false ∧
+    keepsContentMod exCommentAttr [.dir (b "DOCTYPE svg"), .start [] (b "svg") [], .text (b "t"), .start [] (b "g") [([], b "id", b "a")], .stop [] (b "g"), .stop [] (b "svg")] = false := by decide
+/-- the verdict: the plain `base-content` although the base has a comment; `base-content:comment` when only `kept2` fails -/
+example : Spec.Svg.observedOk (features exCommentAttr) { obOk with kept2 := false, keptMod := false } = some "base-content" ∧
+    Spec.Svg.observedOk (features exCommentAttr) { obOk with kept2 := false } = some "base-content:comment" ∧
+    Spec.Svg.observedOk (features exPrefix) { obOk with kept2 := false, wellformed := false, keptMod := false } = some "base-content" ∧
+    Spec.Svg.observedOk (features exPrefix) { obOk with kept2 := false, wellformed := false } = some "not-wellformed:duplicate-attribute" := by decide
+example : Spec.Svg.callOk { args := false, again := true } = some "argument-modified" ∧
+    Spec.Svg.callOk { args := true, again := false } = some "not-repeatable" ∧ Spec.Svg.callOk { args := true, again := true } = none := by decide
+
 /-- the whole predicate on the model's output with the model's own flags -/
 example : Spec.Svg.checkSVG (fmtOf exRot) exO exT none (exClean.map kindOf) true exClean none
     (withPrinted (compositeNodes exRot (exClean.map kindOf) true exO exT none))
@@ -911,6 +976,8 @@ example : Spec.Svg.checkSVG (fmtOf exRot) exO exT none exKinds true exToks none 
     { obOk with kept2 := false } = some "base-content" := by decide
 example : Spec.Svg.checkSVG (fmtOf exRot) exO exT none exKinds true exToks none (withPrinted (compositeNodes exRot exKinds true exO exT none))
     { obOk with kept := false } = some "base-content" := by decide
+example : Spec.Svg.checkSVG (fmtOf exRot) exO exT none exKinds true exToks none (withPrinted (compositeNodes exRot exKinds true exO exT none))
+    { obOk with keptMod := false } = some "base-content" := by decide
 example : Spec.Svg.checkSVG (fmtOf exRot) exO exT none exKinds true exToks none (withPrinted (compositeNodes exRot exKinds true exO exT none))
     { obOk with wellformed := false } = some "wellformed" := by decide
 example : Spec.Svg.checkSVG (fmtOf exRot) exO exT none exKinds true exToks none (withPrinted (compositeNodes exRot exKinds true exO exT none)) obOk
